@@ -14,7 +14,8 @@ ASSUMPTIONS = [
     "phases are constructed (k + 1/2) ticks long so the model is deterministic; a RAM sum within 1e-6 GB of the free RAM may be accepted or refused",
     "an episode ends at the first rejected round (the executor is mid-tick afterwards; no property covers continuing)",
 ]
-FLOORS = {"had_failure": 0.1, "suspension_finished": 0.03, "batch_ge2": 0.2, "reject_C03": 0.004, "overcommit": 0.2}
+FLOORS = {"had_failure": (0.1, "pm"), "suspension_finished": (0.03, "pm"), "batch_ge2": (0.2, "pm"), "reject_C03": (0.003, "pm"),
+          "overcommit": (0.2, "pm"), "full_simulation": 100}
 
 
 def plan(tier):
